@@ -65,7 +65,13 @@ type c19Cfg struct {
 	// transportClose: main ends with the shutdown sequence of quic-go's Transport.Close on a conn it
 	// does not own followed by hysteria's client Close: SetReadDeadline(now), wait until the reader
 	// has seen the timeout and stopped, SetReadDeadline(zero), Close.
-	transportClose       bool
+	transportClose bool
+	// closeErrs: at the moment of the first Close, the Close of the newest socket, of the one before
+	// it, of both or of none reports an error (free choice). The sockets are released all the same,
+	// as close(2) does; what Close returns is then the implementation's business, what it leaves open
+	// is not. (Added after the independently seeded change C19-7: Close returned at the first socket
+	// close error, before closing the other socket and before marking the conn closed.)
+	closeErrs            bool
 	portKind, jitterKind vsched.ChoiceKind
 	quick, thorough      explore.Bounds
 }
@@ -519,9 +525,24 @@ func c19Body(cfg *c19Cfg) func(e *vsched.Exec) {
 		}
 		first := !w.closeCalled
 		w.closeCalled = true
+		injected := false
+		if cfg.closeErrs && first {
+			k := e.Choose(4, vsched.KFree, "socket-close-errors")
+			for i, s := range w.socks {
+				if s.Closed() {
+					continue
+				}
+				newest := i == len(w.socks)-1
+				if (k == 1 && newest) || (k == 2 && !newest) || k == 3 {
+					s.CloseErr = errors.New("c19: close: input/output error")
+					injected = true
+				}
+			}
+			e.Logf("socket close errors: choice %d", k)
+		}
 		err = w.conn.Close()
 		w.closeReturned = true
-		if err != nil {
+		if err != nil && !injected {
 			e.Fail("Close returned %v (first=%v)", err, first)
 		}
 		w.afterClose()
@@ -568,6 +589,11 @@ func c19Scenarios() []*explore.Scenario {
 			reader: true, poller: true,
 			portKind: vsched.KEnv, jitterKind: vsched.KEnv,
 			quick: explore.Bounds{P: 1, E: 1}, thorough: explore.Bounds{P: 2, E: 2, MaxExec: 600000}},
+		// a socket's Close reports an error at shutdown
+		{name: "hop-close-errors-3ports", portExpr: "20000-20002", iv: fixed, window: 5500 * time.Millisecond, windows: 2,
+			writer: true, reader: true, closeErrs: true,
+			portKind: vsched.KEnv, jitterKind: vsched.KEnv,
+			quick: explore.Bounds{P: 1, E: 1}, thorough: explore.Bounds{P: 2, E: 1, MaxExec: 600000}},
 		// every sequence of port-index and jitter draws (free choices)
 		{name: "hop-draws-range-3ports", portExpr: "20000,20001,20005", iv: ranged, window: 7500 * time.Millisecond, windows: 2,
 			portKind: vsched.KFree, jitterKind: vsched.KFree,
